@@ -947,6 +947,7 @@ BIG_LENGTHS = (256, 6912, 65535)
 def file_worker(args):
     """families of tape files -> real writers / parsers / tapinfo"""
     import random
+    from . import replaylib
     sd, wid, jobs, wd = args
     r = random.Random(sd)
     out = []
@@ -954,41 +955,81 @@ def file_worker(args):
         tag = 'w%d-%d' % (wid, k)
         c = None
         for _ in range(20):
-            if fam == 'writers':
-                datas = std_blocks(r)
-                if arg == 'nonempty':
-                    datas = [d for d in datas if d] or [rand_bytes(r, 2)]
-                c = family_writers(r, wd, tag, datas, key='writers' if all(datas) else 'writers-empty')
-            elif fam == 'big':
-                n = arg
-                datas = [rand_bytes(r, n, r.choice((255, 0, 128, r.randrange(256))))]
-                c = family_writers(r, wd, tag, datas, sig=n <= 512, key='writers-big')
-            elif fam == 'xfmt':
-                flag = r.choice((255, 255, 128, 0, r.randrange(128, 256))) if arg == 'cheap' else r.choice((0, 255, 127, 128, 1, r.randrange(256)))
-                datas = [rand_bytes(r, r.choice((1, 2, 3, 17, 19)), flag)]
-                if arg != 'cheap' and r.random() < 0.4:
-                    datas.append(rand_bytes(r, r.choice((1, 2, 5)), r.choice((255, 128, r.randrange(128, 256)))))
-                c = family_xfmt(r, wd, tag, datas)
-            elif fam == 'tzx':
-                c = family_tzx(r, wd, tag, arg)
-            elif fam == 'pzx':
-                c = family_pzx(r, wd, tag, arg)
-            elif fam == 'tap':
-                c = family_tap(r, wd, tag, arg)
-            elif fam == 'puls':
-                c = family_puls(r, wd, tag, arg)
-            elif fam == 'puls-random':
-                ents = puls_boundary_entries()
-                c = family_puls(r, wd, tag, [(cnt, d if d < 70000 else 70000, f) for cnt, d, f in
-                                             (r.choice(ents) for _ in range(r.randrange(1, 5))) if cnt < 100])
-            else:
-                raise MachineryError('unknown family %r' % (fam,))
+            st = replaylib.rnd_state(r)
+            c = file_job(r, fam, arg, wd, tag)
             if c is not None:
                 break
         if c is None:
             raise MachineryError('family %s: no case generated' % fam)
+        # generator state before this case: --replay makes files too large to be stored byte by byte (writers-big) again from it
+        c['regen'] = dict(st, fam=fam, arg=arg, tag=tag)
         out.append(c)
     return out
+
+
+def file_job(r, fam, arg, wd, tag):
+    """one case of a family (None: the generated file was too long, try again)"""
+    if fam == 'writers':
+        datas = std_blocks(r)
+        if arg == 'nonempty':
+            datas = [d for d in datas if d] or [rand_bytes(r, 2)]
+        return family_writers(r, wd, tag, datas, key='writers' if all(datas) else 'writers-empty')
+    if fam == 'big':
+        n = arg
+        datas = [rand_bytes(r, n, r.choice((255, 0, 128, r.randrange(256))))]
+        return family_writers(r, wd, tag, datas, sig=n <= 512, key='writers-big')
+    if fam == 'xfmt':
+        flag = r.choice((255, 255, 128, 0, r.randrange(128, 256))) if arg == 'cheap' else r.choice((0, 255, 127, 128, 1, r.randrange(256)))
+        datas = [rand_bytes(r, r.choice((1, 2, 3, 17, 19)), flag)]
+        if arg != 'cheap' and r.random() < 0.4:
+            datas.append(rand_bytes(r, r.choice((1, 2, 5)), r.choice((255, 128, r.randrange(128, 256)))))
+        return family_xfmt(r, wd, tag, datas)
+    if fam == 'tzx':
+        return family_tzx(r, wd, tag, arg)
+    if fam == 'pzx':
+        return family_pzx(r, wd, tag, arg)
+    if fam == 'tap':
+        return family_tap(r, wd, tag, arg)
+    if fam == 'puls':
+        return family_puls(r, wd, tag, arg)
+    if fam == 'puls-random':
+        ents = puls_boundary_entries()
+        return family_puls(r, wd, tag, [(cnt, d if d < 70000 else 70000, f) for cnt, d, f in
+                                        (r.choice(ents) for _ in range(r.randrange(1, 5))) if cnt < 100])
+    raise MachineryError('unknown family %r' % (fam,))
+
+
+def replay_files(wd, rp):
+    """A recorded file case on the current tree again: every file written again - by the real writer from the recorded byte blocks
+    where a real writer made it, from the recorded raw bytes otherwise - and parsed / listed / played by the real code; a case whose
+    bytes were cut in the record (files over 4000 bytes) is generated again from the recorded generator state."""
+    from . import replaylib
+    os.makedirs(wd, exist_ok=True)
+    cut = any(g['raw'] and g['raw'][-1] == '...' for g in rp['files'])
+    if cut:
+        rg = rp.get('regen')
+        if not rg:
+            raise MachineryError('the recorded files are cut to 4000 bytes and the generator state was not recorded')
+        arg = rg['arg']
+        if rg['fam'] == 'puls':
+            arg = [tuple(e) for e in arg]
+        c = file_job(replaylib.rnd_restore(rg), rg['fam'], arg, wd, rg['tag'])
+        # same INPUT as recorded? (byte blocks given to a real writer / raw bytes of a file the harness wrote itself)
+        def same(f, g):
+            if g['writer']:
+                return [d[:100] for d in f['wdata']] == [d[:100] for d in g['wdata']]
+            return f['raw'][:4000] == g['raw'][:4000]
+        if c is None or [f['fmt'] for f in c['files']] != [g['fmt'] for g in rp['files']] or not all(same(f, g) for f, g in zip(c['files'], rp['files'])):
+            raise MachineryError('the replay file was written by a different version of the C11 generator')
+        return c
+    files = []
+    for k, g in enumerate(rp['files']):
+        path = os.path.join(wd, 'r%d.%s' % (k, g['fmt']))
+        if g['writer']:
+            files.append(written(g['fmt'], path, g['wdata']))
+        else:
+            files.append(file_obs(g['fmt'], write(path, bytes(g['raw'])), g['start'], g['stop'], g['skip']))
+    return dict(kind='files', key=rp.get('key', '?'), same=rp['same'], files=files)
 
 
 def load_alphabet(path):
